@@ -48,6 +48,42 @@ CLAIMS = {
             "Assumes a single attribute store is atomic; region preservation of split is C15's business; an interrupt "
             "inside a documented in-place mutator (invert, move...) is outside the property.",
             "DESIGN.md section 2, C11"),
+    "C01": ("finite-domain truth tables of the operator algebra, abstract interpretation of the recombination cores "
+            "on stand-in shapes, ranking-witness catalogue for loops, effect analysis",
+            "Decides the algebraic skeleton for all inputs: every return of every operator method equals its Boolean "
+            "specification on every admissible point assignment (incl. De Morgan for composite shapes and the "
+            "no-boundary exits), the cores select exactly the pieces outside the closed / inside the open other "
+            "operand with consistent indexing after splitting all curve pairs, every while loop and recursion has a "
+            "termination witness, and operands stay reusable in nested expressions.",
+            "NOT decided (the geometric core): that crossings are found, that pursue_path chains the right pieces, "
+            "numerical robustness. Assumes ShapeFromJordans of the selected pieces denotes the region they bound.",
+            "DESIGN.md section 2, C01"),
+    "C02": ("finite-domain decision tables (own interpreter over the AST), quantifier classification, dimension check "
+            "of the on-curve test, cache-coherence analysis",
+            "Decides the decision table of SimpleShape._contains_point (12 rows), the +-1/2 boundary sentinel and the "
+            "all-segments winding sum, the forall/exists composition over subshapes with the boundary flag forwarded, "
+            "the dispatch of `in`, Empty/Whole membership, freshness of the cached orientation, and that the on-curve "
+            "test compares a distance with its tolerance.",
+            "NOT decided: that the winding number computed for a curved segment equals the geometric one (chord "
+            "approximation), projection accuracy, tolerance adequacy. Only a small named fraction of the statement.",
+            "DESIGN.md section 2, C02"),
+    "C03": ("symbolic evaluation of the pairwise decision function against a derived geometric truth table; "
+            "quantifier + subset-claim normalisation for the composition rules",
+            "Decides SimpleShape.__contains_simple on all 48 rows (5 curve configurations x 4 orientation pairs x "
+            "consultable facts), the composition rules over subshapes (kind, collection, direction, complements), "
+            "the singleton guards and kind dispatch, and that every vertex of a curve is tested.",
+            "Generic position assumed (no tangencies / partially coincident boundaries). NOT decided: adequacy of the "
+            "vertex + mid-crossing sampling in _contains_jordan; the consequences A|B == A.",
+            "DESIGN.md section 2, C03"),
+    "C12": ("dimensional analysis (powers of the unit of length) and affine-weight analysis of every numeric decision, "
+            "interprocedural through defaults / class constants / call arguments",
+            "Decides which comparisons, additive expressions, round() and limit_denominator() calls are inhomogeneous "
+            "in the unit of length (scale-dependent decisions) and that metric predicates are fed displacements, not "
+            "positions (translation invariance). The 12 scale-dependent decisions of today's tree are genuine, "
+            "recorded known findings; any new one is a violation.",
+            "NOT decided: whether a given input crosses a threshold; rotation invariance. Undetermined dimensions are "
+            "counted, never reported.",
+            "DESIGN.md section 2, C12"),
 }
 
 NOT_YET = "check not built yet in this round (planned, see DESIGN.md section 2)"
